@@ -278,6 +278,8 @@ for _p in ("C01", "C02", "C06", "C07"):
 CHECKS["C04"]["text"] += (" key.validate_key / split_key_string / weighted_score and KEY_TO_SEMITONE are REGENERATED from the "
                           "source on every run and proved equal to the key model (Props/C04_KeyGen.lean), incl. the documented "
                           "key-relationship table on the translated code.")
+CHECKS["C04"]["text"] += (" The documented default parameter values are proved (decide) to be the defaults of the signature "
+                          "table regenerated from the source (Props/C04_Defaults.lean).")
 for _p in ("C09", "C10"):
     CHECKS[_p]["text"] += (" chord.pitch_class_to_semitone / scale_degree_to_semitone are REGENERATED from the source on every "
                            "run and proved equal to the hand models (Props/%s_Gen.lean)." % _p)
